@@ -75,7 +75,7 @@ def visit_dsl(st, label, factory, values):
             st.outcome(k)
             continue
         st.add("traces")
-        problems, collision = embed.check(schema, v, res, tree)
+        problems, collision = embed.check(schema, v, res, tree, parsed=False)
         if isinstance(v, (list, dict)) and v:
             st.add("nontrivial")
         st.outcome("ACCEPT/" + ("embedded" if not problems else "not-embedded"))
